@@ -16,6 +16,7 @@ CONSTANTS
   Concurrent = FALSE
   WithRejects = FALSE
   ExportOneIn = 100
+  RecoveryCrashes = FALSE
 INVARIANTS NoViolation CacheCounterExact ChunksAbut DurableIsPrefix Export TailExact
 VIEW View
 ALIAS Alias
